@@ -147,8 +147,10 @@ def finding_matches(match, v):
         return False
     if "where" in match and v["where"] != match["where"]:
         return False
-    if "clause" in match and clause_id(v["clause"]) != match["clause"]:
-        return False
+    if "clause" in match:
+        want = match["clause"] if isinstance(match["clause"], list) else [match["clause"]]
+        if clause_id(v["clause"]) not in want:
+            return False
     cfg = v.get("cfg") or {}
     for k, want in (match.get("cfg") or {}).items():
         got = cfg.get(k) if isinstance(cfg, dict) else None
